@@ -1,6 +1,7 @@
 import Iec.Drv.C19
 import Iec.Drv.Asdu
 import Iec.Drv.Srv104
+import Iec.Drv.Cli104
 /-
 iecdrv — line-protocol driver: one operation per input line, one canonical result
 line per operation.  The C harnesses execute the same lines on the real code; the
@@ -11,6 +12,7 @@ open Iec.Drv
 structure DrvState where
   asdu : Iec.Drv.Asdu.St := {}
   srv : Iec.Drv.Srv104.St := {}
+  cli : Iec.Drv.Cli104.St := {}
 
 def dispatch (st : DrvState) (ws : List String) : DrvState × String :=
   match ws with
@@ -25,7 +27,10 @@ def dispatch (st : DrvState) (ws : List String) : DrvState × String :=
         | none =>
           match Iec.Drv.Srv104.handle st.srv ws with
           | some (a, s) => ({ st with srv := a }, s)
-          | none => (st, "bad-op")
+          | none =>
+            match Iec.Drv.Cli104.handle st.cli ws with
+            | some (a, s) => ({ st with cli := a }, s)
+            | none => (st, "bad-op")
 
 partial def loop (h : IO.FS.Stream) (out : IO.FS.Stream) (st : DrvState) : IO Unit := do
   let line ← h.getLine
